@@ -60,14 +60,14 @@ Theorem reload_changed_value_refuted :
   let snap := [(1, 2)] in
   let calls := [LAdd 1 1] ++ pinned_reload_calls old snap in
   calls = [LAdd 1 1; LAdd 1 2; LDel 1] /\
-  truth [EPut 1 1; EReload snap [] []] = [(1, 2)] /\
+  truth [EPut 1 1; EReload snap []] = [(1, 2)] /\
   c_view (pinned_c_run (new_container false) calls) = [1] /\
   c_view (c_run (new_container false) calls) = [].
 Proof. vm_compute. repeat split; reflexivity. Qed.
 
 (* the repaired calculateChanges on the same input: one OnAdd, no OnDelete *)
 Example reload_changed_value_fixed :
-  emitted (EReload [(1, 2)] (calc_add [(1, 1)] (snap_map [(1, 2)])) (calc_rem [(1, 1)] (snap_map [(1, 2)])))
+  ladds (calc_add [(1, 1)] (snap_map [(1, 2)])) ++ ldels (calc_rem [(1, 1)] (snap_map [(1, 2)]))
   = [LAdd 1 2] /\
   c_view (c_run (new_container false) [LAdd 1 1; LAdd 1 2]) = [2].
 Proof. vm_compute. split; reflexivity. Qed.
